@@ -235,6 +235,9 @@ def _str_escape(s: str) -> str:
             c = r'\v'
         elif c == "\\": 
             c = r'\\'
+        elif c == '\0':
+            # docutils uses the null character as an escape marker and strips it from the text.
+            c = r'\x00'
         return c
 
     # Escape it
